@@ -1480,10 +1480,18 @@ def _consumer(E, st, f, a, k, e):
     src = E.read(st, it[1]) if isinstance(it, tuple) and it[0] == 'r' else it
     if isinstance(src, tuple) and src[0] == 'it' and mentions(src, lambda x: x[0] == 'it' and x[1] in ('map', 'filter', 'filter_map', 'inspect')):
         st.ev('consume_begin', it=src)
+        st.conds.append((('consumed', src), True))
+        tys = [x for x in f.get('args', []) if x.get('k') != 'region']
+        into = tys[-1]['path'] if tys and tys[-1].get('k') == 'adt' else ''
 
         def got(s, x):
             s.ev('consume_end', it=src, elem=x)
-            e2 = [ev for ev in s.events if ev.get('i') == e['i']]
+            # collecting fallible items into Result<_, E> / Option<_>: the first failing item decides
+            if f['path'].endswith(('::collect', '::from_iter')) and isinstance(x, tuple) and x[0] == 'agg':
+                if into == 'core::result::Result' and x[1] == 'core::result::Result':
+                    return k(s, x if x[2] == 'Err' else OK(ret))
+                if into == 'core::option::Option' and x[1] == 'core::option::Option':
+                    return k(s, NONE if x[2] == 'None' else SOME(ret))
             k(s, ret)
         return it_elem(E, st, src, got)
     k(st, ret)
